@@ -60,8 +60,11 @@ class C14(Check):
     LEVEL = "exploration"
     RUNS = {"quick": 3000, "thorough": 60000}
     N_OPS = {"quick": (6, 22), "thorough": (8, 40)}
-    RULE = ("seeded histories over KeyedSet for 8 item universes (self-keyed str / int, tuples and unhashable lists with an "
-            "explicit key function, keyed spec items; untyped and KeyedSet[T, K]) x enforce_item_equivalence on/off; each "
+    RULE = ("seeded histories over KeyedSet for 14 item universes (self-keyed str / int, tuples, unhashable lists and tuples "
+            "unhashable only by content with an explicit key function, non-injective / repr / attribute-reading key functions, "
+            "keyed spec items; untyped and KeyedSet[T, K]) x enforce_item_equivalence on/off; binary operators, comparisons and "
+            "in-place operators against KeyedSet and built-in set operands are judged on keys (also when the operand holds an "
+            "unequal item under a shared key; the empty built-in set is an operand for unhashable universes); each "
             "operation runs against the reference mapping model and, for universes with a key function, is re-executed with "
             "an InjectedFault at every key-function invocation index. evaluations = operation executions; "
             "distinct_nontrivial = distinct (universe, enforce, operation, argument class, size 0..4/5+, outcome class).")
